@@ -89,27 +89,34 @@ def mdEntries (i : NodeInfo) : List (String × Obj) :=
 
 def bundleAttrs : Attrs := [("emd_group_type", .str "metadatabundle")]
 
-/-- `_append_root_metadata(rootgroup, root, appendover)` -/
+/-- the loop of `_append_root_metadata` over the runtime root's Metadata, acting on the entries of the
+    file root's bundle; `existing` is `metadata_groups`, computed once before the loop -/
+def mdMergeEntries (over : Bool) (existing : List String) :
+    List (String × Obj) → List (String × Obj) → R (List (String × Obj))
+  | fe, [] => pure fe
+  | fe, (k, v) :: rest =>
+    if existing.contains k then
+      -- present in the file: replaced (append-over: `del` then `to_h5`) or skipped (append)
+      mdMergeEntries over existing (if over then areplace k v fe else fe) rest
+    else if !validName k then throw (.error ("name outside the modelled domain: " ++ k))
+    else if (alookup k fe).isSome then throw (.error ("name already exists: " ++ k))
+    else mdMergeEntries over existing (fe ++ [(k, v)]) rest
+
+/-- `_append_root_metadata(rootgroup, root, appendover)`.  A bundle that has to be created is put in front of
+    the other links: link order is not observable (H5), and this keeps the group in the shape `encode` produces. -/
 def appendRootMetadata (rootgroup : Obj) (root : NodeInfo) (over : Bool) : R Obj :=
   let entries := mdEntries root
   if entries.isEmpty then pure rootgroup
-  else do
-    let (rg, existing) ←
-      match alookup "metadatabundle" rootgroup.kids with
-      | none => do
-        let rg ← createIn rootgroup "metadatabundle" (.group bundleAttrs [])
-        pure (rg, ([] : List String))
-      | some b =>
-        pure (rootgroup, (b.kids.filter (fun kv => kv.2.gtype == some "metadata")).map (·.1))
-    let step (b : Obj) (kv : String × Obj) : R Obj :=
-      if existing.contains kv.1 then
-        if over then pure (b.setKids (areplace kv.1 kv.2 b.kids)) else pure b
-      else createIn b kv.1 kv.2
-    match alookup "metadatabundle" rg.kids with
-    | none => throw (.error "unreachable")
+  else if !rootgroup.isGroup then throw (.error "not a group")
+  else
+    match alookup "metadatabundle" rootgroup.kids with
+    | none => do
+      let es ← mdMergeEntries over [] [] entries
+      pure (rootgroup.setKids (("metadatabundle", .group bundleAttrs es) :: rootgroup.kids))
     | some b => do
-      let b' ← entries.foldlM step b
-      pure (rg.setKids (areplace "metadatabundle" b' rg.kids))
+      let existing := (b.kids.filter (fun kv => kv.2.gtype == some "metadata")).map (·.1)
+      let es ← mdMergeEntries over existing b.kids entries
+      pure (rootgroup.setKids (areplace "metadatabundle" (b.setKids es) rootgroup.kids))
 
 /-- `emdpath` parsing of write.py: strip one leading '/', split, first name is the root -/
 def parseEmdpathWrite (s : String) : Option (String × List String) :=
